@@ -376,9 +376,10 @@ func (ef *Filter) filterField(ctx context.Context, v reflect.Value, filterOverri
 	}
 
 	opts := getOpts(opt...)
-	// we want to check if we should ignore taggable for this recursion, but
-	// then strip the option, so the next level of recursion can redact both
-	// taggable things and other fields.
+	// the caller has applied the tags of v itself (withIgnoreTaggable): strip
+	// the option, so it is not handed down.  It says nothing about the FIELDS
+	// of v: a field which is Taggable in its own right (a tagged map held by a
+	// Taggable struct) still gets its tags applied below.
 	if opts.withIgnoreTaggable {
 		var removeIdx int
 		for i := 0; i < len(opt); i++ {
@@ -462,7 +463,7 @@ func (ef *Filter) filterField(ctx context.Context, v reflect.Value, filterOverri
 						continue
 					}
 					fieldTaggedInterface, fieldIsTaggable := f.Interface().(Taggable)
-					if fieldIsTaggable && !opts.withIgnoreTaggable {
+					if fieldIsTaggable {
 						if err := ef.filterTaggable(ctx, fieldTaggedInterface, filterOverrides, tm, opt...); err != nil {
 							return fmt.Errorf("%s: %w", op, err)
 						}
@@ -494,7 +495,7 @@ func (ef *Filter) filterField(ctx context.Context, v reflect.Value, filterOverri
 				}
 			}
 
-		case isTaggable && !opts.withIgnoreTaggable:
+		case isTaggable:
 			if err := ef.filterTaggable(ctx, taggedInterface, filterOverrides, tm, opt...); err != nil {
 				return fmt.Errorf("%s: %w", op, err)
 			}
